@@ -144,6 +144,7 @@ def run_pairs(part, env, fmt, op, pairs, soft=True):
     outcomes = part.outcomes
     n = 0
     tch = fmt.name[0]
+    prev = None
     for a, b in pairs:
         wa = word(*a)
         wb = word(*b)
@@ -155,6 +156,11 @@ def run_pairs(part, env, fmt, op, pairs, soft=True):
                 part.violation(_key(op, fmt, 'wrong-type'), '%r' % (r,), _fmt_case(op, fmt, a, b))
                 continue
             got = ('ok', unword(unpack(code, r._buffer)[0]))
+            # a result stays what it was while later operations run (an expression holds several)
+            if prev is not None and (unpack(code, prev[0]._buffer)[0] != prev[1] or prev[0] is r):
+                part.violation(_key(op, fmt, 'earlier-result-changed'), 'the result of the previous operation changed '
+                               'when this one was computed (or the same object was returned)', _fmt_case(op, fmt, a, b))
+            prev = (r, unpack(code, r._buffer)[0])
         except BASICError as e:
             got = ('err', e.err)
         except Exception as e:
